@@ -216,8 +216,29 @@ fn batch1() -> Batch {
 fn batch2() -> Batch {
     Batch::one(TableBatch::new("t", 3).col("id", vec![ri(11), ri(12), ri(13)]).col("y", vec![rf(0.5), rf(1.5), rf(2.5)]))
 }
+/// The concurrent request: two rows for t and, in the same request, the first rows of a table that does not exist yet.
 fn batch3() -> Batch {
-    Batch::one(TableBatch::new("t", 2).col("id", vec![ri(21), ri(22)]).col("x", vec![ri(121), ri(122)]))
+    Batch {
+        tables: vec![
+            TableBatch::new("t", 2).col("id", vec![ri(21), ri(22)]).col("x", vec![ri(121), ri(122)]),
+            TableBatch::new("fresh", 2).col("id", vec![ri(31), ri(32)]),
+        ],
+    }
+}
+
+/// Quiescent check of the table created by the concurrent request.
+fn check_fresh(db: &LocustDB, rt: &tokio::runtime::Runtime, when: &str) -> Option<(String, String)> {
+    match rt.block_on(db.run_query("SELECT id FROM fresh", false, true, vec![])) {
+        Ok(o) => {
+            let got: Vec<RVal> = o.rows.unwrap_or_default().into_iter().map(|r| RVal::from_raw(&r[0])).collect();
+            if got != vec![ri(31), ri(32)] {
+                let kind = if got.len() < 2 { "rows-lost" } else if got.len() > 2 { "rows-duplicated" } else { "rows-differ" };
+                return Some((format!("{}:new-table:{}", when, kind), format!("the concurrent request also created table fresh with ids [31, 32]; {} SELECT id FROM fresh returns {:?}", when, got)));
+            }
+            None
+        }
+        Err(e) => Some((format!("{}:new-table:query-failed:{}", when, err_kind(&e).0), format!("the concurrent request also created table fresh; {} SELECT id FROM fresh fails: {}", when, e))),
+    }
 }
 
 pub struct RunObs {
@@ -477,6 +498,9 @@ pub fn run_schedule(sc: &Scenario, schedule: &[usize]) -> RunObs {
             }
             Err(e) => obs.violation = Some((format!("final-query-failed:{}", err_kind(&e).0), format!("{}", e))),
         }
+        if obs.violation.is_none() && sc.with_ingest {
+            obs.violation = check_fresh(&db, &rt, "final-content");
+        }
     }
     let hung = obs.violation.as_ref().map(|v| v.0.starts_with("no-completion")).unwrap_or(false);
     if !hung {
@@ -499,6 +523,9 @@ pub fn run_schedule(sc: &Scenario, schedule: &[usize]) -> RunObs {
                 }
             }
             Err(e) => obs.violation = Some((format!("after-restart:query-failed:{}", err_kind(&e).0), format!("{}", e))),
+        }
+        if obs.violation.is_none() && sc.with_ingest {
+            obs.violation = check_fresh(&db2, &rt, "after-restart");
         }
         drop(db2);
     }
@@ -625,7 +652,7 @@ impl Engine for C10 {
         let bound = if tier == Tier::Quick { 2 } else { 3 };
         Describe {
             level: "model_checking",
-            rule: format!("scenario: table t with one flushed batch and one batch in the open buffer (+ a second table), then concurrently actor F = force_flush (partition_combine_factor 0: every flush also compacts; 4: no compaction), actor Q = one query from {{SELECT id, SELECT x (a column the new partition lacks), SELECT id, y, SELECT *, COUNT(1), a query on evicted / reopened columns}} and optionally actor I = ingestion of a third batch. The three actors are real database threads parked at the sync points compiled into wal_flush (begin, frozen, per table batched / sub-partitioned, batched, partition files written, partitions persisted, compaction begin / before swap / after swap / catalogue updated, compacted, catalogue persisted, orphans deleted, end), run_query (snapshot taken, before each partition, before each disk read) and ingest_efficient (begin, end). EVERY schedule 'run actor X to its next sync point' with at most {} context switches (one less in the scenarios with three actors) is executed (depth-first with replay). Oracle: the query returns Ok; its rows equal the content of a prefix of the acknowledged batch log (every batch whole, all batches acknowledged before the query started included); no database thread panics; all actors complete; afterwards SELECT id returns every acknowledged row once. Non-trivial: schedules with at least one switch; distinct by the sequence of sync points observed.", bound),
+            rule: format!("scenario: table t with one flushed batch and one batch in the open buffer (+ a second table), then concurrently actor F = force_flush (partition_combine_factor 0: every flush also compacts; 4: no compaction), actor Q = one query from {{SELECT id, SELECT x (a column the new partition lacks), SELECT id, y, SELECT *, COUNT(1), a query on evicted / reopened columns}} and optionally actor I = one ingestion request carrying a third batch for t and the first rows of a table that does not exist yet. The three actors are real database threads parked at the sync points compiled into wal_flush (begin, frozen, per table batched / sub-partitioned, batched, partition files written, partitions persisted, compaction begin / before swap / after swap / catalogue updated, compacted, catalogue persisted, orphans deleted, end), run_query (snapshot taken, before each partition, before each disk read) and ingest_efficient (begin, end). EVERY schedule 'run actor X to its next sync point' with at most {} context switches (one less in the scenarios with three actors) is executed (depth-first with replay). Oracle: the query returns Ok; its rows equal the content of a prefix of the acknowledged batch log (every batch whole, all batches acknowledged before the query started included); no database thread panics; all actors complete; afterwards SELECT id returns every acknowledged row once, for t and for the newly created table. Non-trivial: schedules with at least one switch; distinct by the sequence of sync points observed.", bound),
             assumptions: vec![
                 "interleavings are explored at sync-point granularity; lock-level interleavings between two sync points are taken as they come".into(),
                 "an actor that does not reach its next sync point within the patience window is treated as blocked by a parked actor and left running; only a schedule in which the actors never complete counts as a hang".into(),
@@ -648,7 +675,7 @@ impl Engine for C10 {
             }
             let mut local: Vec<(Vec<usize>, String, String, Vec<String>)> = vec![];
             // three actors: one switch less (the space grows with the square of the number of sync points)
-            let bound = if sc.with_ingest { bound - 1 } else { bound };
+            let bound = if sc.with_ingest || sc.with_evict { bound - 1 } else { bound };
             let (runs, capped) = explore_part(sc, bound, max_runs, part, parts, |choices, obs| {
                 out.evaluations += 1;
                 out.transitions += obs.points.len() as u64;
